@@ -23,10 +23,16 @@ Vocabulary (model):
   `getOrCreate s c`   lock s; v := locker.Value c; if v == nil { v = new; locker.SetValue c v }; Commit
   `isNoise s c p`     p consists of plain SetValue (not of key c on scope s) / Value / Keys calls
   `isKeyNoise c p`    p consists of plain SetValue of keys other than c / Value / Keys calls
+  `Svc`, `SvcOp`, `svcRun`   the service units on a tree (Model/DataScopeSvc): get-or-create `goc n k`, `bind n k m`
+                      (BindScope), `clear n k` (Clear), plain `set`/`get`, locked sections `sect n ws`; instances are
+                      numbered by `fresh`;  `resolve σ n k`: the instance a lookup on node `n` gives;
+                      `ownSlot σ n k`: absent / cleared (`some none`) / `some (some inst)`;
+                      `op.touches n k`: the op may write the own slot `(n, k)`
 -/
 import Goat.Proofs.DataScopeCounter
 import Goat.Proofs.DataScopeCreate
 import Goat.Proofs.DataScopeProgress
+import Goat.Proofs.DataScopeSvc
 import Goat.Tie.C13.Idiom
 import Goat.Tie.C13.Expected
 
@@ -336,5 +342,95 @@ example :
     let fin := (sys init).run [0, 1, 0, 0, 0, 1, 1, 1]
     allDone fin = true ∧ fin.threads.map (·.reg) = [some 100, some 101] ∧ fin.fresh = 102 := by
   decide
+
+/-! ### 4. The service units on a scope tree (tasks.Unit FromScope/BindScope/Clear, envs.Unit.Envs, waits ForScope)
+
+Every service operation is a composition of the overlay operations of section 1 (Model/DataScopeSvc):
+`bind`/`clear` are one `SetValue` of an instance / of nil on the node itself, get-or-create is the locked
+section `getOrCreate` of section 3 read sequentially.  The model driver `m_dssvc`, which is compared with the
+real services on random operation sequences, runs get-or-create through the request interpreter (`gocRun`). -/
+
+/-- get-or-create through the request interpreter (LockData; locker.Value; if nil: new instance,
+locker.SetValue; Commit) never waits on a heap where nobody holds a lock, and is `svcGoc`: it returns what
+the node resolves to when that is an instance, and otherwise makes instance `fresh` and stores it in the
+node's own slot. -/
+theorem gocRun_is_svcGoc (st : Store) (hwf : WF st.scopes) (hfree : AllFree st.scopes) (fresh n : Nat) (k : Key)
+    (hn : n < st.scopes.length) :
+    ∃ st', gocRun st fresh n k = some (st', (svcGoc ⟨st.scopes, fresh⟩ n k).1.fresh, (svcGoc ⟨st.scopes, fresh⟩ n k).2) ∧
+      st'.scopes = (svcGoc ⟨st.scopes, fresh⟩ n k).1.ss :=
+  gocRun_eq hwf hfree fresh n k hn
+
+example :
+    let st : Store := { scopes := [⟨none, [(101, some 4)], false⟩, ⟨some 0, [(101, none)], false⟩, ⟨some 0, [], false⟩], lockers := [] }
+    (gocRun st 7 2 101).map (fun r => (r.1.scopes, r.2)) = some (st.scopes, 7, 4) ∧          -- follows the parent
+    (gocRun st 7 1 101).map (fun r => (r.1.scopes, r.2)) =                                   -- cleared child: a new one
+      some ([⟨none, [(101, some 4)], false⟩, ⟨some 0, [(101, some 7)], false⟩, ⟨some 0, [], false⟩], 8, 7) := by
+  decide
+
+/-- `BindScope(n, m)` is sticky: after it, whatever the other nodes do — for EVERY later sequence of service
+operations (get-or-create, bind, clear, plain writes, locked sections, on the parent, on siblings, on
+descendants, with any instances) that does not write the own slot of `n` for that key — node `n` resolves
+to `m`.  In particular binding a child to the very instance its parent holds at that moment gives the child
+its own value: re-binding or clearing the parent later does not move the child. -/
+theorem bind_is_sticky (σ : Svc) (hwf : WF σ.ss) (n : Nat) (hn : n < σ.ss.length) (k : Key) (m : Nat)
+    (ops : List SvcOp) (h : ∀ op ∈ ops, op.touches n k = false) :
+    resolve (svcRun (svcBind σ n k m) ops) n k = some m :=
+  svcRun_sticky (σ := svcBind σ n k m) (WF_dataSet hwf n k _) (dataGet_dataSet_same k (some m) hn) ops h
+
+/-- `Clear(n)` is sticky in the same sense: the stored nil shadows the ancestors, so `n` resolves to nil
+(and the next get-or-create on `n` makes a fresh instance) whatever the ancestors are given later. -/
+theorem clear_is_sticky (σ : Svc) (hwf : WF σ.ss) (n : Nat) (hn : n < σ.ss.length) (k : Key)
+    (ops : List SvcOp) (h : ∀ op ∈ ops, op.touches n k = false) :
+    resolve (svcRun (svcClear σ n k) ops) n k = none :=
+  svcRun_sticky (σ := svcClear σ n k) (WF_dataSet hwf n k _) (dataGet_dataSet_same k none hn) ops h
+
+/-- more generally the own slot decides: a node that has one (instance or stored nil) answers with it for as
+long as nothing writes that slot. -/
+theorem own_slot_is_sticky (σ : Svc) (hwf : WF σ.ss) (n : Nat) (k : Key) (v : Val) (hown : ownSlot σ n k = some v)
+    (ops : List SvcOp) (h : ∀ op ∈ ops, op.touches n k = false) :
+    resolve (svcRun σ ops) n k = v :=
+  svcRun_sticky hwf hown ops h
+
+/-- get-or-create gives the node an own slot exactly when it made the instance; the instance is then `fresh` -/
+theorem goc_creates_own (σ : Svc) (hwf : WF σ.ss) (n : Nat) (hn : n < σ.ss.length) (k : Key)
+    (hnil : resolve σ n k = none) :
+    (svcGoc σ n k).2 = σ.fresh ∧ (svcGoc σ n k).1.fresh = σ.fresh + 1 ∧
+      ownSlot (svcGoc σ n k).1 n k = some (some σ.fresh) ∧ resolve (svcGoc σ n k).1 n k = some σ.fresh := by
+  unfold resolve at hnil
+  simp only [svcGoc, hnil, ownSlot, resolve]
+  exact ⟨trivial, trivial, dataGet_dataSet_same k _ hn, value_dataSet_same hwf n k _ hn⟩
+
+/-- … and stores nothing when the node already resolves to an instance (its own or an ancestor's) -/
+theorem goc_finds (σ : Svc) (n : Nat) (k : Key) (i : Nat) (h : resolve σ n k = some i) : svcGoc σ n k = (σ, i) := by
+  unfold resolve at h
+  simp [svcGoc, h]
+
+-- non-vacuity of the hypotheses of bind_is_sticky / clear_is_sticky, and the scenario they decide:
+-- root 0 holds instance 0, child 1 is bound to that SAME instance, grandchild 2 and sibling 3 have nothing.
+-- Then the root is re-bound to instance 5, cleared, a sibling gets-or-creates, a locked section rewrites
+-- the root: none of these touches slot (1, 101), child 1 (and the grandchild that follows it) stay on 0.
+example :
+    let σ : Svc := { ss := [⟨none, [(101, some 0)], false⟩, ⟨some 0, [], false⟩, ⟨some 1, [], false⟩, ⟨some 0, [], false⟩], fresh := 1 }
+    let ops : List SvcOp := [.bind 0 101 5, .goc 3 101, .clear 0 101, .goc 3 101, .sect 0 [(101, some 9), (102, none)], .goc 2 101, .set 2 102 (some 3)]
+    WF σ.ss ∧ (∀ op ∈ ops, op.touches 1 101 = false) ∧
+      resolve σ 1 101 = some 0 ∧ ownSlot σ 1 101 = none ∧                      -- before: follows the parent
+      ownSlot (svcBind σ 1 101 0) 1 101 = some (some 0) ∧                       -- bind stores although the parent has the same
+      (List.range 4).map (fun n => resolve (svcRun (svcBind σ 1 101 0) ops) n 101) = [some 9, some 0, some 0, some 1] ∧
+      -- without the bind the child would have followed the root
+      (List.range 4).map (fun n => resolve (svcRun σ ops) n 101) = [some 9, some 9, some 9, some 1] := by
+  refine ⟨?_, by decide, by decide, by decide, by decide, by decide, by decide⟩
+  intro i sc hi p hp
+  match i, hi with
+  | 0, hi => simp at hi; subst hi; simp at hp
+  | 1, hi => simp at hi; subst hi; simp at hp; omega
+  | 2, hi => simp at hi; subst hi; simp at hp; omega
+  | 3, hi => simp at hi; subst hi; simp at hp; omega
+  | i + 4, hi => simp at hi
+
+-- clear on a child while no ancestor holds anything stores a nil: the child does not pick up what the parent gets later
+example :
+    let σ : Svc := { ss := [⟨none, [], false⟩, ⟨some 0, [], false⟩], fresh := 0 }
+    let τ := svcRun (svcClear σ 1 101) [.goc 0 101]
+    resolve τ 0 101 = some 0 ∧ resolve τ 1 101 = none ∧ (svcGoc τ 1 101).2 = 1 := by decide
 
 end Goat.C13
